@@ -448,26 +448,15 @@ Definition so_sync (o : nat) : M unit :=
   | Some r => select_init o r ;;; upd_inst o (fun i => i_with_expired i false)
   end.
 
-(* delattr of every column attribute, in order; a missing one raises AttributeError *)
-Fixpoint del_attrs (n : nat) (vals : list (option val)) : list (option val) * bool :=
-  match vals with
-  | [] => ([], true)
-  | None :: r => (None :: r, false)
-  | Some _ :: r => let '(r', ok) := del_attrs (S n) r in (None :: r', ok)
-  end.
-
-(* expire *)
+(* expire: drop whatever cached attributes are there *)
 Definition so_expire (o : nat) : M unit :=
   i <- gets (fun s => get_inst s o) ;;
   if i_expired i then ret tt
   else
-    let '(vals', ok) := del_attrs 0 (i_vals i) in
-    upd_inst o (fun i => i_with_vals i vals') ;;;
-    if ok then
-      upd_inst o (fun i => i_with_expired i true) ;;;
-      cache_expire (i_k i) (i_id i) ;;;
-      upd_inst o (fun i => i_with_cv (i_with_dirty (i_with_pending i []) false) true)
-    else raise EAttribute.
+    upd_inst o (fun i => i_with_vals i (map (fun _ => None) (i_vals i))) ;;;
+    upd_inst o (fun i => i_with_expired i true) ;;;
+    cache_expire (i_k i) (i_id i) ;;;
+    upd_inst o (fun i => i_with_cv (i_with_dirty (i_with_pending i []) false) true).
 
 (* attribute read *)
 Definition so_read (o : nat) (c : nat) : M val :=
